@@ -55,7 +55,7 @@ def parent(t: str) -> bool:
     post: _
     """
     sid = Sid(PRE + t + SUF)
-    if not sid:
+    if not sid or "?" in sid.string:          # a refused query stays in the string (C04's subject)
         return True
     f = sid.fields
     keys = list(f.keys())
@@ -92,7 +92,7 @@ def walk(t: str) -> bool:
     post: _
     """
     sid = Sid(PRE + t + SUF)
-    if not sid:
+    if not sid or "?" in sid.string:
         return True
     cur = sid
     n = len(sid)
